@@ -92,7 +92,13 @@ fn main() {
             let k = rng.below(log.len() as u64 + 1) as usize;
             let sim = CrashSim::at(&log, k);
             let np = sim.num_pending();
-            for keep in [vec![true; np], (0..np).map(|_| rng.chance(1, 2)).collect::<Vec<bool>>()] {
+            // outcomes: everything kept; an in-order crash (a prefix of the pending operations survives);
+            // an arbitrary subset
+            let cut = if np == 0 { 0 } else { rng.below(np as u64 + 1) as usize };
+            let prefix: Vec<bool> = (0..np).map(|i| i < cut).collect();
+            for keep in [vec![true; np], prefix, (0..np).map(|_| rng.chance(1, 2)).collect::<Vec<bool>>()] {
+                // "in order": the surviving pending operations form a prefix of what was issued
+                let in_order = keep.iter().skip_while(|k| **k).all(|k| !*k);
                 let img = sim.image(&keep, &mut rng);
                 let img_files: Vec<String> = img.keys().filter(|n| !n.starts_with('.')).cloned().collect();
                 let img_managed = img.get(".managed.json").map(|b| e1::managed_list(b)).unwrap_or_default();
@@ -105,8 +111,14 @@ fn main() {
                 if orphans.is_empty() && missing.is_empty() && managed_ok { out.spec_checked(true, json!({})); continue; }
                 let cd = json!({"what": "after crash + open + commit + GC the directory is not exactly the committed files", "orphans": orphans, "missing": missing, "managed_matches": managed_ok,
                                 "crash_after_log_entries": k, "kept": keep, "case": desc});
-                if !missing.is_empty() { out.spec_checked(false, cd); continue; }
-                // orphans: inherent class F5 iff the crash image already held a file its .managed.json did not list
+                if !missing.is_empty() || orphans.is_empty() { out.spec_checked(false, cd); continue; }
+                // orphans: inherent class F5 iff the crash image already held a file its .managed.json did not
+                // list AND the crash was out of order (a later directory operation survived an earlier one
+                // that did not): with register-then-create an in-order crash can never produce an orphan
+                if in_order {
+                    out.spec_checked(false, json!({"what": "orphan after an IN-ORDER crash + open + commit + GC (a file was created before it was registered as managed)", "detail": cd}));
+                    continue;
+                }
                 let mut cids = PathIds::new();
                 out.coq_case("known:F5", format!("f5_class {} {}", ids_of(&img_files, &mut cids), ids_of(&img_managed, &mut cids)), cd, true);
             }
